@@ -233,7 +233,28 @@ def run_case(ctx, kind, rng, idx):
         d2 = np.asarray(res2.distances)
         same_d = d1.shape == d2.shape and np.allclose(d1, d2, rtol=tol,
                                                       atol=tol)
-        if ci2 != ci or not same_d:
+        def valid_greedy(seq):
+            # is `seq` a farthest-point sequence up to rounding-level ties?
+            if init_idx is None:
+                if seq[0] != 0:
+                    return False
+                dm, start = D[:, 0].copy(), 1
+            else:
+                dm, start = D[:, init_idx].min(axis=1), len(init_idx)
+            for c in seq[start:]:
+                mx = dm.max()
+                if dm[c] < mx - 1e-9 * (1 + mx):
+                    return False
+                dm = np.minimum(dm, D[:, c])
+            return True
+        if (ci2 != ci or not same_d) and len(ci2) == len(ci) and \
+                valid_greedy(ci) and valid_greedy(ci2) and any(
+                    abs(D[a, b] - D[a, c]) <= 1e-9 * (1 + D[a, b])
+                    for a in range(n) for b, c in zip(ci, ci2) if b != c):
+            # both runs follow the greedy rule; they broke a rounding-level
+            # tie between equally far frames differently
+            ctx.count('ambiguous_farthest_ties')
+        elif ci2 != ci or not same_d:
             ctx.violation('kcenters.shortcut-differs',
                           'with shortcut centers %s / without %s; distances '
                           'equal=%s' % (ci2, ci, same_d))
